@@ -115,8 +115,50 @@ func New(p *load.Program) (*Engine, error) {
 		}
 	}
 	walk(e.Step, 0)
-	if e.Exec == nil || best < 200 {
-		return nil, fmt.Errorf("UNRESOLVED anchor: no decoder (function below Step switching on >=200 constant opcode cases) found; best=%d", best)
+	if e.Exec == nil || best < 100 {
+		// fallback by role: the static callee of Step that takes only the CPU,
+		// returns nothing, and has the largest body below it (a decoder that
+		// works by arithmetic on the opcode bits has few constant cases)
+		e.Exec = nil
+		bestSize := 0
+		for _, b := range e.Step.Blocks {
+			for _, in := range b.Instrs {
+				c, ok := in.(*ssa.Call)
+				if !ok {
+					continue
+				}
+				cal := c.Call.StaticCallee()
+				if cal == nil || !load.InModule(cal) || cal.Blocks == nil || len(cal.Params) != 1 || cal.Signature.Results().Len() != 0 {
+					continue
+				}
+				size := 0
+				seen2 := map[*ssa.Function]bool{}
+				var cnt func(f *ssa.Function)
+				cnt = func(f *ssa.Function) {
+					if seen2[f] {
+						return
+					}
+					seen2[f] = true
+					for _, bb := range f.Blocks {
+						size += len(bb.Instrs)
+						for _, i2 := range bb.Instrs {
+							if c2, ok := i2.(*ssa.Call); ok {
+								if f2 := c2.Call.StaticCallee(); f2 != nil && load.InModule(f2) && f2.Blocks != nil {
+									cnt(f2)
+								}
+							}
+						}
+					}
+				}
+				cnt(cal)
+				if size > bestSize {
+					bestSize, e.Exec = size, cal
+				}
+			}
+		}
+		if e.Exec == nil {
+			return nil, fmt.Errorf("UNRESOLVED anchor: no decoder found below Step")
+		}
 	}
 	if len(e.Exec.Params) != 1 {
 		return nil, fmt.Errorf("UNRESOLVED anchor: decoder %s does not take exactly the *CPU", e.Exec)
@@ -227,6 +269,7 @@ type ImplSummary struct {
 	Externals []string
 	Instrs    int
 	Err       error // *absint.Undecided
+	Sites     map[ssa.Instruction]*absint.SiteLog
 }
 
 func (e *Engine) fixedHook(c *dom.Ctx, spec Spec, pcAtom dom.BV) func(kind, dev string, args []dom.BV) (dom.BV, bool) {
@@ -265,14 +308,16 @@ func (e *Engine) RunImpl(c *dom.Ctx, spec Spec, opt Options) *ImplSummary {
 	in := absint.New(e.P, c, tr)
 	in.AddSymbolicRoot("cpu", "")
 	in.ReadableGlobals = e.InitOnly
+	in.Sites = map[ssa.Instruction]*absint.SiteLog{}
 	e.seedRoots(in)
+	e.Preconditions(in)
 	if opt.SwapIXIY {
 		in.InitOverride["cpu|"+isa.LocIX] = c.Atom("Init("+isa.LocIY+")", 16)
 		in.InitOverride["cpu|"+isa.LocIY] = c.Atom("Init("+isa.LocIX+")", 16)
 	}
 	st := e.GlobalInit.Clone()
 	_, out, err := in.Run(e.Exec, []absint.Value{&absint.Ptr{Root: "cpu", Nil: bdd.False}}, st)
-	s := &ImplSummary{Err: err, Instrs: in.Instrs}
+	s := &ImplSummary{Err: err, Instrs: in.Instrs, Sites: in.Sites}
 	s.C, s.Trace = c, tr
 	for fn := range in.Funcs {
 		s.Funcs = append(s.Funcs, fn.String())
@@ -348,6 +393,12 @@ func (e *Engine) seedRoots(in *absint.Interp) {
 	}
 }
 
+// Preconditions installs the API preconditions of the properties on the
+// symbolic CPU: cpu.Memory is not nil.
+func (e *Engine) Preconditions(in *absint.Interp) {
+	in.InitOverride["cpu|"+isa.DevMem] = &absint.Iface{Sym: isa.DevMem, Nil: bdd.False}
+}
+
 // SeedInterp prepares an interpreter and initial state with the package's
 // initialisation-only tables.
 func (e *Engine) SeedInterp(in *absint.Interp) *absint.State {
@@ -417,6 +468,7 @@ func (d Diff) String() string {
 func (e *Engine) initOther(c *dom.Ctx, l Leaf) absint.Value {
 	in := absint.New(e.P, c, nil)
 	in.AddSymbolicRoot("cpu", "")
+	e.Preconditions(in)
 	return in.Load(absint.NewState(), &absint.Ptr{Root: "cpu", Path: l.Path, Nil: bdd.False}, l.Type, 0)
 }
 
@@ -536,6 +588,7 @@ type ArmResult struct {
 	// arguments); Writes: integer leaves whose post-value differs from Init.
 	Reads  []string
 	Writes []string
+	Sites  map[ssa.Instruction]*absint.SiteLog
 }
 
 // readsWrites extracts the read and write sets of an implementation summary.
@@ -576,6 +629,7 @@ func (e *Engine) CompareArm(spec Spec) *ArmResult {
 	res := &ArmResult{Spec: spec, Enc: spec.String()}
 	impl := e.RunImpl(c, spec, Options{})
 	res.Pos, res.Funcs, res.Externals, res.Instrs = impl.Pos, impl.Funcs, impl.Externals, impl.Instrs
+	res.Sites = impl.Sites
 	ref := e.RunRef(c, spec, Options{}, false)
 	res.Info = ref.Info
 	if impl.Err != nil {
